@@ -46,14 +46,15 @@ type cEni struct {
 
 // call kinds in the log
 const (
-	cCreate  = 1
-	cAttach  = 2
-	cAssign4 = 3
-	cAssign6 = 4
-	cUn4     = 5
-	cUn6     = 6
-	cDetach  = 7
-	cDelete  = 8
+	cCreate   = 1
+	cAttach   = 2
+	cAssign4  = 3
+	cAssign6  = 4
+	cUn4      = 5
+	cUn6      = 6
+	cDetach   = 7
+	cDelete   = 8
+	cDescribe = 9 // fault kind only: the listing of the node's interfaces fails (throttled), nothing is logged
 )
 
 type fakeCloud struct {
@@ -144,6 +145,9 @@ func (c *fakeCloud) DescribeNetworkInterfaceV2(ctx context.Context, opts ...aliy
 	}
 	c.mu.Lock()
 	defer c.mu.Unlock()
+	if c.outcome(cDescribe) != 0 {
+		return nil, fmt.Errorf("injected: Throttling")
+	}
 	var ids []int
 	for id := range c.enis {
 		ids = append(ids, id)
@@ -704,7 +708,12 @@ func genHistory(r *hx.Rand) []*big.Int {
 					recs = append(recs, []int{1, q, q*10 + gen[q], 0, 0, 0})
 					alive[q] = true
 				}
-				recs = append(recs, []int{4, 0}, []int{4, 0})
+				if r.Chance(1, 2) {
+					// the synchronisation the conflict forces is throttled once, then the cloud is healthy again
+					recs = append(recs, []int{4, 0}, []int{4, 1, cDescribe, 1}, []int{4, 0})
+				} else {
+					recs = append(recs, []int{4, 0}, []int{4, 0})
+				}
 			}
 		default:
 			recs = append(recs, []int{9, r.Intn(2)})
